@@ -61,7 +61,7 @@ PLANS = {
         random=dict(n=100, n_thorough=1200, length=30, with_down=True, with_state_loss=False),
         invariants=["C14_LitestreamStepKeepsAppData", "C14_SameAsControlRun", "C14_BookkeepingOnly"],
         witnesses=[],
-        control=True,
+        control=True, contention=True,
         nontrivial="distinct schedule with litestream steps interleaved with application writes, replayed twice (with/without litestream)",
     ),
 }
@@ -126,6 +126,15 @@ def build_cases(plan, tier, seed, wd, rep):
         scheds.append(("random", s, None))
     for w in plan.get("witnesses", []):
         scheds.append(("witness:" + w, WITNESS[w], None))
+    if plan.get("contention"):
+        # a second application connection holds the write lock for 0.5x / 1.5x / 2.5x litestream's busy timeout (50 ms in
+        # the driver) while litestream takes its barrier, bumps its counter or snapshots
+        for ms in (25, 75, 125):
+            for lsop in (["LsCheckpoint", "PASSIVE"], ["LsCheckpoint", "TRUNCATE"], ["LsSyncAndWait"], ["LsSync"]):
+                for pre in (0, 2):
+                    d = [["LsOpen", "new"], ["AppWrite", 1], ["LsSyncAndWait"]] + [["AppWrite", 2 + j] for j in range(pre)] + \
+                        [["AppHoldWrite", ms], lsop, ["AppJoin"], ["AppWrite", 3], ["LsSyncAndWait"], ["LsClose"]]
+                    scheds.append(("contention", d, None))
     if plan.get("directed"):
         ds = directed_c04()
         if not thorough:
